@@ -451,6 +451,8 @@ int c12_batch(const Args &a) {
         GenCfg g;
         g.ntasks = 2 + cr.below(3);
         g.max_ops = 1 + cr.below(6);
+        // now and then many threads with few calls each: objects handed out to N concurrent users need N+1 overlapping calls
+        if (cr.chance(1, 12)) { g.ntasks = 5 + cr.below(3); g.max_ops = 1 + cr.below(2); }
         int nf = 1 + cr.below(4);
         for (int k = 0; k < nf; k++) g.fams.push_back(cr.below(FAM_NFAM));
         g.faults = cr.chance(1, 2) && !getenv("VERIF_NOFAULTS");
